@@ -6,6 +6,7 @@ A failing obligation here means the code moved away from the model.
 import GoZero.Extracted.C11
 import GoZero.C11.Model
 import GoZero.C11.Containers
+import GoZero.C11.DriverSeq
 namespace GoZero.C11.Tie
 open GoZero.Extracted.C11
 
@@ -337,5 +338,36 @@ theorem tie_conditions_sem (cfg : Cfg) (s : St) (t : Nat) (th : Thread) :
     cases th.reg <;> simp <;> omega
   · intro hpc; unfold stepTh; simp only [hpc, executesFn, hasTasksLenFn]
     cases th.reg <;> simp <;> omega
+
+/-- the package defaults that `newBulkOptions` / `newChunkOptions` start from and the sqlx inserter's interval and
+threshold: the literals the sequential driver and `SqlC` use -/
+theorem tie_defaults :
+    defaultBulkTasks = 1000 ∧ GoZero.C11.defaultBulkTasks = defaultBulkTasks ∧
+    defaultChunkSize = 1048576 ∧ GoZero.C11.defaultChunkSize = defaultChunkSize ∧
+    defaultFlushInterval = 1000000000 ∧ GoZero.C11.defaultFlushInterval = defaultFlushInterval ∧
+    sqlxFlushInterval = 1000000000 ∧ GoZero.C11.maxBulkRows = sqlxMaxBulkRows := by decide
+
+/-- options: every `With*` stores its argument in the field the constructor forwards, the defaults are the package
+constants, the options are applied to a fresh value (no state shared between executors) -/
+theorem tie_options :
+    newBulkOptionsStmts = ["return bulkOptions{ cachedTasks: defaultBulkTasks, flushInterval: defaultFlushInterval, }"] ∧
+    newChunkOptionsStmts = ["return chunkOptions{ chunkSize: defaultChunkSize, flushInterval: defaultFlushInterval, }"] ∧
+    withBulkTasksStmts = ["return func(options *bulkOptions) { options.cachedTasks = tasks }"] ∧
+    withBulkIntervalStmts = ["return func(options *bulkOptions) { options.flushInterval = duration }"] ∧
+    withChunkBytesStmts = ["return func(options *chunkOptions) { options.chunkSize = size }"] ∧
+    withFlushIntervalStmts = ["return func(options *chunkOptions) { options.flushInterval = duration }"] := by decide
+
+set_option maxRecDepth 8192 in
+/-- constructors: the options start from the defaults and are applied to a local value; the executor literal forwards
+interval and container; the flusher builds its ticker from `pe.interval`; the sqlx inserter hands ITS container and
+the package's `flushInterval` to `NewPeriodicalExecutor` -/
+theorem tie_constructors2 :
+    newBulkStmts.take 2 = ["options := newBulkOptions()", "for _, opt := range opts { opt(&options) }"] ∧
+    newChunkStmts.take 2 = ["options := newChunkOptions()", "for _, opt := range opts { opt(&options) }"] ∧
+    newPeriodicalFields = ["commander: make(chan any, 1)", "interval: interval", "container: container",
+      "confirmChan: make(chan lang.PlaceholderType)", "newTicker: func(d time.Duration) timex.Ticker { return timex.NewTicker(d) }"] ∧
+    sqlxNewStmts.getD 2 "" = "inserter := &dbInserter{ sqlConn: sqlConn, stmt: bkStmt, }" ∧
+    sqlxNewStmts.getD 3 "" = "return &BulkInserter{ executor: executors.NewPeriodicalExecutor(flushInterval, inserter), inserter: inserter, stmt: bkStmt, }, nil" ∧
+    tickerCalls = ["pe.newTicker(pe.interval)"] := by decide
 
 end GoZero.C11.Tie
